@@ -12,6 +12,7 @@ import SCoda.Gen.Settings
 import SCoda.Gen.TheoryFns
 import SCoda.Model.BarOps
 import SCoda.Model.MidiParse
+import SCoda.Model.MidoCodec
 
 open SCoda
 
@@ -302,6 +303,21 @@ def handle : P String := do
     | .error e => pure e
     | .ok toks => pure (" ".intercalate ((getInfo c cofFn imp toks).map pInfoRow))
   | "toMido" => do pure (pMsgs (toMido (← msgs)))
+  | "encodeMido" => do
+    -- the mido objects the translated `to_midi_track().to_mido_track()` hands over (Model/MidoCodec.lean), attribute by attribute
+    let pm (m : MidoMsg) : String :=
+      let ch := match m.channel with | some c => toString c | none => "N"
+      match m.type with
+      | .noteOn => s!"note_on,{m.time},{ch},{m.note},{m.velocity}"
+      | .noteOff => s!"note_off,{m.time},{ch},{m.note},{m.velocity}"
+      | .timeSignature => s!"time_signature,{m.time},{m.numerator},{m.denominator}"
+      | .keySignature => s!"key_signature,{m.time},{m.key}"
+      | .controlChange => s!"control_change,{m.time},{ch},{m.control},{m.value}"
+      | .programChange => s!"program_change,{m.time},{ch},{m.program}"
+      | .other => s!"other,{m.time}"
+    match toMidoObjects (← msgs) with
+    | .ok l => pure ("[" ++ ";".intercalate (l.map pm) ++ "]")
+    | .error _ => pure "ERR"
   | "parseMido" => do
     let ty ← pnat; let time ← pint; let chw ← word
     let note ← pint; let velocity ← pint; let numerator ← pint; let denominator ← pint
